@@ -126,11 +126,16 @@ package readline
 //@   assigns rl.selection.visual, rl.selection.visualLine
 //@   ensures rl.selection.visual == old(opvis(rl)) && rl.selection.visualLine == old(opvl(rl))
 
+// (trusted for callers; the body is walked for the call-site assertion below: the working buffer is re-read from the
+// completion engine only once the engine has left an incremental search and dropped any inserted candidate, so
+// that the 'cursor on a character' adjustment acts on the real line - seed C06-5)
 //@ func (*Shell).viCommandMode
+//@   props C06
 //@   trusted resets selection/iterations/registers flags, cancels completion and hints, re-reads (line, cursor, selection) from the completion engine (identical outside isearch), moves the cursor back by at most one and switches keymaps; does not touch the buffer text or the kill buffer (completion engine and hint code are outside the verified set; hypothesis: no completion or isearch active)
 //@   requires viok(rl)
 //@   assigns rl.selection.Type, rl.selection.active, rl.selection.visual, rl.selection.visualLine, rl.selection.bpos, rl.selection.epos, rl.selection.kpos, rl.selection.fg, rl.selection.bg, rl.selection.surrounds, rl.Iterations.times, rl.Iterations.active, rl.Iterations.pending, rl.Buffers.active, rl.Buffers.waiting, rl.Buffers.selected, rl.cursor.pos, rl.cursor.mark, rl.Keymap.local, rl.Keymap.main, anyof("ui.Hint", "*"), anyof("completion.Engine", "*")
 //@   ensures core.ccmd(rl.cursor)
+//@   at_call Engine).GetBuffer [buffer-refetched-after-the-search-was-left] rl.completer.keymap.local != "isearch" && len(rl.completer.selected.Value) == 0
 
 //@ func (*Shell).viDeleteTo
 //@   props C17
